@@ -354,10 +354,10 @@ pub fn tile_seq_space(depth: u32) -> ByteSpace {
 
 /// Long datagrams: `n` well-formed tiles of varying sizes (4, 8, 12, 12-with-padding, 8 bytes, cycling with a stride
 /// that depends on `n`), for n around the sizes an implementation might pick for a cache or an up-front check
-/// (8, 16, 32, 64 ...), ending in each of 12 tail variants: exact, the last tile's length field one word too large
+/// (8, 16, 32, 64, 256 ...), ending in each of 12 tail variants: exact, the last tile's length field one word too large
 /// or too small, 1..3 stray bytes, a header claiming more than is left, a tile that fails to parse (typed parser /
 /// version / below its minimum), a 4-byte tile, a padded tile.
-pub const CHAIN_COUNTS: [usize; 14] = [7, 8, 9, 15, 16, 17, 18, 31, 32, 33, 34, 63, 65, 130];
+pub const CHAIN_COUNTS: [usize; 20] = [7, 8, 9, 15, 16, 17, 18, 31, 32, 33, 34, 63, 65, 130, 255, 256, 257, 300, 513, 1025];
 pub const CHAIN_TAILS: u64 = 12;
 pub fn long_chain_space() -> ByteSpace {
     let menu = tile_menu();
